@@ -41,6 +41,7 @@ func run(r *hx.Result, cfg hx.Config) {
 	timeFree(r, drv, rng, cfg)
 	timed(r, rng, cfg)
 	rolesR3(r, rng, cfg) // seeds_r3.go: expiry after every step of a role history (c14_sweeper_in_every_role)
+	scriptsR4(r, rng, cfg) // seeds_r4.go: deadline commands directly and through scripts, kill -9 + restart, follower (c14_script_*)
 	// hooks and channels against the life-cycle model (coq/Model/HookLife.v, the c14_hook_* theorems)
 	hooklife.RunC14(r, cfg)
 }
